@@ -378,3 +378,58 @@ func init() {
 	reg("C10.scale", checkC10Scale)
 	reg("C10.names", checkC10CaseNames)
 }
+
+// ---- a block written inside an overriding block ---------------------------------------------------------------
+
+type C10NestedCase struct {
+	Which int `json:"which"`
+}
+
+var c10NestedSets = []struct {
+	tm   map[string]string
+	want string
+}{
+	{map[string]string{"base": "[{% block a %}A{% endblock %}|{% block b %}B{% endblock %}]", "main": "{% extends 'base' %}{% block a %}mA({% block b %}mB{% endblock %}){% endblock %}"}, "[mA(mB)|mB]"},
+	{map[string]string{"base": "[{% block a %}A{% endblock %}|{% block b %}B{% endblock %}]", "mid": "{% extends 'base' %}{% block a %}mA({% block b %}mB{% endblock %}){% endblock %}", "main": "{% extends 'mid' %}{% block b %}cB{% endblock %}"}, "[mA(cB)|cB]"},
+	{map[string]string{"base": "[{% block a %}A{% endblock %}]", "main": "{% extends 'base' %}{% block a %}mA({% block c %}mC{% endblock %}){% endblock %}"}, "[mA(mC)]"},
+	{map[string]string{"base": "[{% block a %}A{% endblock %}]", "mid": "{% extends 'base' %}{% block a %}mA({% block c %}mC{% endblock %}){% endblock %}", "main": "{% extends 'mid' %}{% block c %}cC{% endblock %}"}, "[mA(cC)]"},
+	{map[string]string{"base": "[{% block a %}A{% endblock %}|{% block b %}B{% endblock %}]", "main": "{% extends 'base' %}{% block a %}x{% block b %}<{{ parent() }}>{% endblock %}{% endblock %}"}, "[x<B>|<B>]"},
+	{map[string]string{"base": "[{% block a %}A({% block b %}B{% endblock %}){% endblock %}]", "main": "{% extends 'base' %}{% block b %}cB{% endblock %}"}, "[A(cB)]"},
+	{map[string]string{"base": "[{% block a %}A({% block b %}B{% endblock %}){% endblock %}]", "main": "{% extends 'base' %}{% block a %}nA({% block b %}nB{% endblock %}){% endblock %}"}, "[nA(nB)]"},
+	{map[string]string{"base": "[{% block a %}A({% block b %}B{% endblock %}){% endblock %}|{% block c %}C{% endblock %}]", "main": "{% extends 'base' %}{% block a %}{{ parent() }}+{% block c %}nC{% endblock %}{% endblock %}"}, "[A(B)+nC|nC]"},
+	{map[string]string{"base": "[{% block a %}A{% endblock %}|{% block b %}B{% endblock %}|{% block c %}C{% endblock %}]", "main": "{% extends 'base' %}{% block a %}1{% block b %}2{% block c %}3{% endblock %}{% endblock %}{% endblock %}"}, "[123|23|3]"},
+	{map[string]string{"base": "[{% block a %}A{% endblock %}|{% block b %}B{% endblock %}]", "mid": "{% extends 'base' %}{% block a %}m{% block b %}mB{% endblock %}{% endblock %}", "main": "{% extends 'mid' %}{% block a %}c[{{ parent() }}]{% endblock %}"}, "[c[mmB]|mB]"},
+	{map[string]string{"base": "[{% block a %}A{% endblock %}|{% block b %}B{% endblock %}]", "main": "{% extends 'base' %}{% block a %}{% block b %}{% endblock %}{% endblock %}"}, "[|]"},
+}
+
+// checkC10Nested: a block written inside an overriding block is a definition of that template: it
+// replaces the definitions further up the chain wherever the block stands.
+func checkC10Nested(c C10NestedCase) error {
+	s := c10NestedSets[c.Which%len(c10NestedSets)]
+	for pass := 0; pass < 2; pass++ {
+		e := newEngine(s.tm)
+		r := render(e, "main", nil)
+		if pass == 1 {
+			r = render(e, "main", nil) // and from the cache
+		}
+		if r.Failed() || r.Out != s.want {
+			return fmt.Errorf("templates:%s\nrender %v, want %s", showSources(s.tm), r, q(s.want))
+		}
+	}
+	return nil
+}
+
+func TestC10Nested(t *testing.T) {
+	r := NewRec(t, "C10", "exhaustive: 11 template sets in which a block is written inside an overriding block of a child or middle template (a block the layout has at top level, a new block, with parent(), three deep, with an empty body, overridden again further down); expected text written out; all cases non-trivial")
+	defer r.Flush()
+	r.SetExhaustive()
+	for i := range c10NestedSets {
+		c := C10NestedCase{Which: i}
+		r.Case(fmt.Sprint(i), true, c10NestedSets[i].tm["main"])
+		if err := checkC10Nested(c); err != nil {
+			r.FailEnum(t, "C10.nested", c, err)
+		}
+	}
+}
+
+func init() { reg("C10.nested", checkC10Nested) }
